@@ -155,6 +155,19 @@ func checkPoison(sc *bw.Scenario, res *vresult, out *simkit.Outcome) {
 	if ok, why := checkPoisonHistory(ops); !ok {
 		out.Violate("C12", "use-after-error", "not-poisoned", fmt.Sprintf("variant %d: %s", vi, why))
 	}
+	// (3) the same judged by the order in which the callers held the builder's mutex: a call
+	// that first took it after a failing call had let go of it for the last time worked on a
+	// failed builder, whenever it was invoked
+	for _, f := range res.adds {
+		if !f.HasErr || f.LastUnl == 0 {
+			continue
+		}
+		for _, g := range res.adds {
+			if !g.HasErr && !g.Refused && g.Panic == "" && g.FirstAcq > f.LastUnl {
+				out.Violate("C12", "use-after-error", "success-after-failure", fmt.Sprintf("variant %d: Add #%d (task %d) returned an error and released the builder for the last time at event %d; Add #%d (task %d) first took the builder at event %d and returned success", vi, f.Idx, f.Task, f.LastUnl, g.Idx, g.Task, g.FirstAcq))
+			}
+		}
+	}
 	if res.anyErr {
 		out.Probe("build-failed")
 		if res.bundle != nil {
@@ -215,6 +228,10 @@ func checkDiagDelivery(sc *bw.Scenario, w *world, res *vresult, out *simkit.Outc
 					out.Violate("C12", "diag-filename", "invented", fmt.Sprintf("variant %d: diagnostic %s had no file name but arrived with %q", vi, e.ID, got))
 				}
 				continue
+			}
+			if orig == "." {
+				// the package's own top directory, in the spelling a file system gives it
+				orig = ""
 			}
 			if !sourceaddrs.ValidSubPath(orig) {
 				if got != orig {
